@@ -300,7 +300,7 @@ def _run_chunk(exe, lines, timeout):
     return outs, errs
 
 
-def run_par(exe, lines, nproc=None, timeout=600):
+def run_par(exe, lines, nproc=None, timeout=150):
     """returns (outputs, {index: (kind, rc, stderr tail)})"""
     if not lines:
         return [], {}
@@ -355,3 +355,167 @@ def stack_site(err):
     """innermost frames of a sanitizer report that lie in the skeletons / generated code"""
     fr = re.findall(r"#\d+ 0x[0-9a-f]+ in (\w+) [^\n]*?/([\w.-]+\.[ch]):(\d+)", err or "")
     return ["%s@%s:%s" % f for f in fr[:8]]
+
+
+# --------------------------------------------------------------------------
+# classifier support: the TLVs of an input the reference decoder ACCEPTED, walked
+# along the model tree (same chain notion as b-c03's lib/c03_util.py:Plan.walk:
+# the TLVs whose tags one ber_check_tags call handles = the EXPLICIT wrappers of a
+# type with the type's own TLV; a CHOICE ends the chain; members, alternatives and
+# elements start a new one)
+
+class BNode:
+    __slots__ = ("tag", "cons", "form", "content", "kids", "tree", "end")
+
+
+def parse_ber_any(b, pos, depth=0):
+    """one TLV (definite or indefinite) at b[pos:] -> BNode; raises on malformed input"""
+    if depth > 200:
+        raise ValueError("too deep")
+    n = BNode()
+    first = b[pos]
+    p = pos + 1
+    num = first & 31
+    if num == 31:
+        num = 0
+        while True:
+            o = b[p]
+            p += 1
+            num = num * 128 + (o & 127)
+            if o < 128:
+                break
+    n.tag, n.cons, n.kids, n.tree = num * 4 + (first >> 6), bool(first & 32), [], None
+    l = b[p]
+    p += 1
+    if l == 0x80 and n.cons:
+        n.form = "i"
+        while not (b[p] == 0 and b[p + 1] == 0):
+            kid = parse_ber_any(b, p, depth + 1)
+            n.kids.append(kid)
+            p = kid.end
+        n.content = None
+        n.end = p + 2
+        return n
+    if l >= 128:
+        k = l - 128
+        l = int.from_bytes(b[p:p + k], "big")
+        p += k
+    if p + l > len(b):
+        raise ValueError("TLV exceeds buffer")
+    n.form, n.content, n.end = "d", bytes(b[p:p + l]), p + l
+    if n.cons:
+        q = p
+        while q < p + l:
+            kid = parse_ber_any(b, q, depth + 1)
+            n.kids.append(kid)
+            q = kid.end
+    return n
+
+
+class BerAccepted:
+    """chains and typed nodes of an accepted BER input"""
+
+    def __init__(self, tree, data):
+        from modgen import first_tags
+        self.ft = first_tags
+        self.root = parse_ber_any(data, 0)
+        self.chains = []
+        self.typed = []          # (model tree node, BNode) for every primitive-typed TLV
+        self.walk(tree, self.root, self.new_chain())
+
+    def new_chain(self):
+        self.chains.append([])
+        return len(self.chains) - 1
+
+    def walk(self, tree, node, chain):
+        k = tree[0]
+        if k == "?":
+            return self.walk(tree[1], node, chain)
+        if k == "c":
+            for a in tree[1]:
+                if node.tag in self.ft(a):
+                    return self.walk(a, node, self.new_chain())
+            raise ValueError("no alternative")
+        if node.tag != tree[1]:
+            raise ValueError("tag mismatch")
+        node.tree = tree
+        self.chains[chain].append(node)
+        if k == "x":
+            self.walk(tree[2], node.kids[0], chain)
+        elif k == "s":
+            i = 0
+            for m in tree[2]:
+                if m[0] == "?" and not (i < len(node.kids) and node.kids[i].tag in self.ft(m)):
+                    continue
+                self.walk(m, node.kids[i], self.new_chain())
+                i += 1
+        elif k in ("q", "t"):
+            for kid in node.kids:
+                self.walk(tree[3], kid, self.new_chain())
+        else:
+            self.typed.append((tree, node))
+
+    def mixed_chains(self):
+        return [c for c in self.chains if len(c) >= 2 and len(set(n.form for n in c)) == 2]
+
+    def negative_in_unsigned(self):
+        return [(t, n) for (t, n) in self.typed if t[0] == "i" and int_unsigned_native(t) and n.content and n.content[0] >= 0x80]
+
+
+def int_unsigned_native(t):
+    """asn1c_type_fits_long == FL_FITS_UNSIGN: the C member is an unsigned long"""
+    lo, hi, ext = t[2], t[3], t[4]
+    if lo is None or lo < 0:
+        return False
+    if hi is None:
+        return lo <= 2147483647
+    return 2147483647 < hi <= 4294967295
+
+
+def tree_any(tree, pred):
+    k = tree[0]
+    if pred(tree):
+        return True
+    if k == "s":
+        return any(tree_any(m, pred) for m in tree[2])
+    if k == "c":
+        return any(tree_any(m, pred) for m in tree[1])
+    if k in ("q", "t"):
+        return tree_any(tree[3], pred)
+    if k in ("x", "?"):
+        return tree_any(tree[-1], pred)
+    return False
+
+
+def has_unsigned_native(tree):
+    return tree_any(tree, lambda t: t[0] == "i" and int_unsigned_native(t))
+
+
+def has_oer_positive_varlen_int(tree):
+    """INTEGER with OER constraint {width 0, positive}: lower bound >= 0, no upper bound, not extensible"""
+    return tree_any(tree, lambda t: t[0] == "i" and t[2] is not None and t[2] >= 0 and t[3] is None and not t[4])
+
+
+def has_tagged_choice(tree):
+    """a CHOICE directly under an EXPLICIT tag (the CHOICE decoder then reads end-of-contents octets itself)"""
+    return tree_any(tree, lambda t: t[0] == "x" and t[2][0] == "c")
+
+
+def zero_size_elem_list(tree, syn):
+    """SEQUENCE OF / SET OF whose element can be encoded in zero octets (OER) / zero bits (UPER)"""
+    def zero(t):
+        k = t[0]
+        if k == "n":
+            return True
+        if k == "o":
+            return t[2] == 0 and t[3] == 0 and not t[4]
+        if k == "i":
+            return syn == "uper" and t[2] is not None and t[2] == t[3] and not t[4]
+        if k == "s":
+            return all(m[0] != "?" and zero(m) for m in t[2]) and (syn == "uper" or True)
+        if k == "x":
+            return zero(t[2])
+        if k == "c":
+            return syn == "uper" and len(t[1]) == 1 and zero(t[1][0])
+        return False
+    return tree_any(tree, lambda t: t[0] in ("q", "t") and zero(t[3]))
